@@ -1,5 +1,6 @@
 import SmtpV.Props.DataMonitor
 import SmtpV.Proofs.DataResume
+import SmtpV.Proofs.WireInv
 /-!
 # C02 — only `CRLF.CRLF` ends DATA; commands resume exactly after it (reader part)
 
@@ -67,5 +68,28 @@ theorem C02_wf_fresh (w : W) (hne : ∀ x ∈ w.segs, x ≠ []) (he : w.err = no
 
 example : WF ({ segs := ["a\r\n.\r".b, "\nNOOP\r\n".b], limit := 2000 } : W) :=
   C02_wf_fresh _ (by decide) rfl
+
+/-! ### the hypothesis of `C02_resume` holds at every command of every connection -/
+
+/-- a connection starts well-formed when the network hands over non-empty segments (on both streams: the one in
+    use and the one inside TLS) and no error is latched -/
+theorem C02_wf_initial (s : S) (hne : ∀ x ∈ s.w.segs, x ≠ []) (he : s.w.err = none)
+    (ht : ∀ t, s.tlsW = some t → ∀ x ∈ t.segs, x ≠ []) : WFS s :=
+  ⟨C02_wf_fresh s.w hne he, ht⟩
+
+/-- **C02_wf_invariant.**  Reading a command line, executing any command (every handler: greeting, MAIL, RCPT, DATA,
+    BDAT with its chunk copies and discards, AUTH with its SASL lines, STARTTLS with the switch to the TLS stream,
+    errors and panics) and the whole connection preserve the well-formedness that `C02_resume` assumes — so the
+    resumption theorem applies to the `DATA` command wherever it occurs in a connection. -/
+theorem C02_wf_invariant (s : S) (h : WFS s) :
+    WFS (connReadLine s).1 ∧ (∀ cmd arg, WFS (handle s cmd arg)) ∧ WFS (serve s) :=
+  ⟨wfs_connReadLine s h, fun cmd arg => wfs_handle s cmd arg h, wfs_serve s h⟩
+
+/-- `C02_resume` for a `DATA` command anywhere in a connection: the state needs nothing but the invariant -/
+theorem C02_resume_anywhere (s : S) (id : Nat) (h : WFS s) :
+    (dataSync s id).2 = true ∨ (dataSync s id).1.c.closed = true ∨
+    ∃ octets, (dataSync s id).1.w.tripped = true ∨ pending (dataSync s id).1.w = [] ∨
+      ∃ tail rest, Terminated (pending s.w) (octets ++ tail) rest ∧ pending (dataSync s id).1.w = rest :=
+  C02_resume s id h.w
 
 end SmtpV.Props.C02
